@@ -420,13 +420,17 @@ func (p *Proxy) handleConnectRequest(ctx *Context, req *http.Request, session *S
 		log.Errorf("martian: got error while flushing response back to client: %v", err)
 	}
 
-	cbw := bufio.NewWriter(cconn)
-	cbr := bufio.NewReader(cconn)
-	defer cbw.Flush()
-
-	copySync := func(w io.Writer, r io.Reader, donec chan<- bool) {
+	// Copy between the connections themselves: bytes must not wait in a buffer
+	// for more to arrive. When one direction ends, pass the end-of-stream on so
+	// that the other side does not have to wait for the idle timeout.
+	copySync := func(w net.Conn, r io.Reader, donec chan<- bool) {
 		if _, err := io.Copy(w, r); err != nil && err != io.EOF {
 			log.Errorf("martian: failed to copy CONNECT tunnel: %v", err)
+		}
+		if cw, ok := w.(interface{ CloseWrite() error }); ok {
+			cw.CloseWrite()
+		} else {
+			w.Close()
 		}
 
 		log.Debugf("martian: CONNECT tunnel finished copying")
@@ -434,8 +438,8 @@ func (p *Proxy) handleConnectRequest(ctx *Context, req *http.Request, session *S
 	}
 
 	donec := make(chan bool, 2)
-	go copySync(cbw, brw, donec)
-	go copySync(brw, cbr, donec)
+	go copySync(cconn, brw.Reader, donec)
+	go copySync(conn, cconn, donec)
 
 	log.Debugf("martian: established CONNECT tunnel, proxying traffic")
 	<-donec
